@@ -168,6 +168,10 @@ def host_reply_rule(ck, F):
 
 def run(ck, F, E):
     coercion_table(ck, F)
+    # reply parsing shares the DATA item parser: a quoted reply is one item whatever it contains (rule shared with C14)
+    import framework
+    from props import C14
+    C14.quoted_items_are_opaque(framework.Rekeyed(ck, "C14", "C08:REPLY"), F)
     host_reply_rule(ck, F)
     # ---- (1)
     cs = sorted({b.path for b, _ in callers_of(F, "Interpreter::rewind_program_and_await_input")})
